@@ -58,11 +58,13 @@ func (s *Stream) Recv(msg any) error {
 		if need > cap(buf) {
 			buf = slices.Grow(buf, need-cap(buf))
 		}
+		// An io.Reader may return n > 0 bytes together with an error (crypto/tls does so when
+		// a close_notify follows the data): the bytes are processed before the error is considered.
 		n, err := s.inner.Read(buf[read:need])
-		if err != nil {
-			return err
-		}
 		if n == 0 {
+			if err != nil {
+				return err
+			}
 			if read == 0 {
 				return io.ErrUnexpectedEOF
 			}
@@ -75,6 +77,9 @@ func (s *Stream) Recv(msg any) error {
 		}
 		if read >= need {
 			return UnmarshalTTLV(buf[:need], msg)
+		}
+		if err != nil {
+			return err
 		}
 	}
 }
